@@ -89,10 +89,8 @@ def cases(tier, seed):
     seen = set()
     for alpha, k in plan:
         for init in ("none", "all", "s1w"):
-            if k >= 3 and tier == "thorough" and init == "s1w":
-                continue  # the longest histories start without a listener or with watch-all
-            if k == 4 and init == "none":
-                continue
+            if k >= 3 and tier == "thorough" and init != "all":
+                continue  # the longest histories of the thorough tier start with a watch-all listener
             for combo in itertools.product(alpha, repeat=k):
                 if not _valid(combo, init):
                     continue
